@@ -163,6 +163,19 @@ pub fn check_case(c: &TextCase, obs: &mut Obs) -> Verdict {
     }
     let mut cfg = config(c.alg);
     let (vk, under_deadline) = deadline_dimension(c, &mut cfg);
+    // the newline_terminated override is a rendering hint: whatever it says, the changes carry the
+    // tokens unchanged (1 case in 5 sets it to false, 1 in 5 to true)
+    match (c.old.0.len() + 2 * c.new.0.len() + c.opt as usize) % 5 {
+        0 => {
+            cfg.newline_terminated(false);
+            obs.class("newline_terminated(false) set");
+        }
+        1 => {
+            cfg.newline_terminated(true);
+            obs.class("newline_terminated(true) set");
+        }
+        _ => {}
+    }
     obs.class_if(under_deadline, "text diff made under a deadline that runs out (passed before the start / at one of the first probes)");
     let r = if c.use_bytes() {
         guard(|| {
@@ -250,7 +263,7 @@ impl Prop for C04 {
     type Case = TextCase;
     const ID: &'static str = "C04";
     fn rule() -> String {
-        "1 case in ~50 is a word diff of 109-179 short tokens from a vocabulary whose words differ only by trailing NUL bytes; 1 case in 6 builds its TextDiff under a deadline that has passed or runs out at one of the first probes (virtual clock): the approximation must reconstruct both texts like any other text diff; cases = (old text, new text, tokenizer in {lines, words, chars, unicode words, graphemes}, algorithm, str | [u8]); texts are concatenations of atoms (ASCII words, whitespace incl. NBSP/U+2028/U+3000/U+0085, LF/CR/CRLF/LFCR, combining marks, ZWJ and flag emoji, NUL/control, diff-looking fragments; for [u8] additionally 11 invalid UTF-8 fragments), new = independent or mutate(old) at atom level; sizes mostly <= 12 atoms, tail straddling 100 tokens; plus line-structured texts; plus an enumeration of all pairs of strings of <= 3 atoms over a 7-atom alphabet with a rotating tokenizer/algorithm. Oracle: concatenated values of non-Insert changes == old bytes, of non-Delete changes == new bytes; Equal has both indices, Delete only old, Insert only new; indices count 0,1,2,... per side; same through per-op iteration. 3 cases in 4 first put the diff object through a history of other queries (ratio, grouped_ops, unified diff, per-op and inline iteration, a dropped half-consumed iterator) before the judged iteration; 1 random case in 8 instead diffs two VIEWS INTO ONE BUFFER (truncated copy, tail view, adjacent views: texts that share memory). Non-trivial = texts differ and the diff has at least one Equal and one change; distinct = distinct serialized case.".into()
+        "2 cases in 5 set the newline_terminated override (false / true) on the builder; 1 case in ~50 is a word diff of 109-179 short tokens from a vocabulary whose words differ only by trailing NUL bytes; 1 case in 6 builds its TextDiff under a deadline that has passed or runs out at one of the first probes (virtual clock): the approximation must reconstruct both texts like any other text diff; cases = (old text, new text, tokenizer in {lines, words, chars, unicode words, graphemes}, algorithm, str | [u8]); texts are concatenations of atoms (ASCII words, whitespace incl. NBSP/U+2028/U+3000/U+0085, LF/CR/CRLF/LFCR, combining marks, ZWJ and flag emoji, NUL/control, diff-looking fragments; for [u8] additionally 11 invalid UTF-8 fragments), new = independent or mutate(old) at atom level; sizes mostly <= 12 atoms, tail straddling 100 tokens; plus line-structured texts; plus an enumeration of all pairs of strings of <= 3 atoms over a 7-atom alphabet with a rotating tokenizer/algorithm. Oracle: concatenated values of non-Insert changes == old bytes, of non-Delete changes == new bytes; Equal has both indices, Delete only old, Insert only new; indices count 0,1,2,... per side; same through per-op iteration. 3 cases in 4 first put the diff object through a history of other queries (ratio, grouped_ops, unified diff, per-op and inline iteration, a dropped half-consumed iterator) before the judged iteration; 1 random case in 8 instead diffs two VIEWS INTO ONE BUFFER (truncated copy, tail view, adjacent views: texts that share memory). Non-trivial = texts differ and the diff has at least one Equal and one change; distinct = distinct serialized case.".into()
     }
     fn assumptions() -> Vec<String> {
         vec!["str mode is used only for valid UTF-8 (by construction)".into()]
